@@ -35,6 +35,7 @@ type ctx struct {
 	cause    error
 	vparent  Context // value lookup continues here
 	key, val any
+	sync     vmc.SyncObj // cancel -> Err() returning non-nil (the real context guards err with a mutex)
 }
 
 // Value is context.Context.Value.
@@ -50,6 +51,9 @@ func (c *ctx) Value(key any) any {
 
 func (c *ctx) Done() *vmc.Chan[struct{}] { return c.done }
 func (c *ctx) Err() error {
+	if c.err != nil {
+		c.sync.Acquire()
+	}
 	return c.err
 }
 func (c *ctx) Deadline() (time.Time, bool) { return c.deadline, c.hasDl }
@@ -65,6 +69,7 @@ func (c *ctx) cancel(err error) {
 		return
 	}
 	c.err = err
+	c.sync.Release()
 	c.done.Close()
 	for _, ch := range c.children {
 		ch.cancel(err)
